@@ -5,7 +5,7 @@ package version
 // Contracts for govc (comment-only; compiled only with -tags verif).
 
 //@ func (Version).HeaderMagicBytes
-//@   props C02 C08
+//@   props C02 C08 C18
 //@   may_panic
 //@   ensures len(result) == 8 && fresh(result)
 //@   assigns nothing
